@@ -1,6 +1,8 @@
 package main
 
 import (
+	"bytes"
+	"context"
 	"bufio"
 	"encoding/json"
 	"fmt"
@@ -31,6 +33,7 @@ type Suite struct {
 	MinObls    int
 	Unverified []string
 	Callers    []callersRule
+	BTests     []boundedTest
 	Assumes    []string
 	Bounded    []string
 }
@@ -76,6 +79,18 @@ func loadSuite(id string) (*Suite, error) {
 			s.Lemmas = append(s.Lemmas, strings.Fields(rest)...)
 		case "unverified":
 			s.Unverified = append(s.Unverified, rest)
+		case "boundedtest":
+			// boundedtest [label] <pkg-dir> <file under /verif/bounded> <TestName> :: <what it covers and its bound>
+			desc := ""
+			if i := strings.Index(rest, "::"); i >= 0 {
+				desc = strings.TrimSpace(rest[i+2:])
+				rest = rest[:i]
+			}
+			parts := strings.Fields(rest)
+			if len(parts) != 4 || !strings.HasPrefix(parts[0], "[") {
+				return nil, fmt.Errorf("%s: boundedtest [label] <pkg-dir> <file> <TestName> :: <description>", line)
+			}
+			s.BTests = append(s.BTests, boundedTest{Label: strings.Trim(parts[0], "[]"), PkgDir: parts[1], File: parts[2], Test: parts[3], Desc: desc})
 		case "callers":
 			// callers [label] <pkg> <callee-glob> only <func-glob>...
 			parts := strings.Fields(rest)
@@ -98,6 +113,37 @@ func loadSuite(id string) (*Suite, error) {
 		}
 	}
 	return s, nil
+}
+
+// boundedTest is a bounded stand-in: an exhaustive run of the real code over a stated finite domain. It is reported
+// under `bounded` in the evidence and never counted as a discharged obligation.
+type boundedTest struct {
+	Label, PkgDir, File, Test, Desc string
+}
+
+func runBoundedTest(bt boundedTest) (bool, string) {
+	src := filepath.Join(verifDir, "bounded", bt.File)
+	tmp, err := os.MkdirTemp("", "govc-bounded-")
+	if err != nil {
+		return false, err.Error()
+	}
+	defer os.RemoveAll(tmp)
+	ov := map[string]any{"Replace": map[string]string{filepath.Join(repoDir, bt.PkgDir, "zz_govc_bounded_test.go"): src}}
+	data, _ := json.Marshal(ov)
+	of := filepath.Join(tmp, "overlay.json")
+	os.WriteFile(of, data, 0o644)
+	ctx, cancel := context.WithTimeout(context.Background(), 240*time.Second)
+	defer cancel()
+	cmd := exec.CommandContext(ctx, "go", "test", "-overlay", of, "-vet=off", "-count=1", "-v", "-timeout", "120s", "-run", "^"+bt.Test+"$", "./"+bt.PkgDir)
+	cmd.Dir = repoDir
+	cmd.Env = goEnv()
+	var out bytes.Buffer
+	cmd.Stdout = &out
+	cmd.Stderr = &out
+	runErr := cmd.Run()
+	text := out.String()
+	ok := runErr == nil && strings.Contains(text, "--- PASS: "+bt.Test) && strings.Contains(text, "GOVC-BOUNDED")
+	return ok, text
 }
 
 // callersRule is a frame condition on the call graph of one package: every reference to a function matching
@@ -488,6 +534,34 @@ func mainCheck(args []string) int {
 		evObls = append(evObls, evidenceObl{Name: o.Name, Result: o.Result, Clause: o.Output})
 		report(o, "not-regenerable: "+o.Output)
 	}
+	var boundedEv []any
+	for _, bt := range suite.BTests {
+		ok, text := runBoundedTest(bt)
+		res := "pass"
+		if !ok {
+			res = "fail"
+		}
+		cases := ""
+		for _, l := range strings.Split(text, "\n") {
+			if strings.HasPrefix(l, "GOVC-BOUNDED") {
+				cases = strings.TrimSpace(strings.TrimPrefix(l, "GOVC-BOUNDED"))
+			}
+		}
+		boundedEv = append(boundedEv, map[string]any{"label": bt.Label, "result": res, "covers": bt.Desc, "explored": cases,
+			"cmd": "go test -overlay <" + bt.File + " into " + bt.PkgDir + "> -run ^" + bt.Test + "$ ./" + bt.PkgDir, "counted_as_proved": false})
+		if !ok {
+			o := &Obligation{Name: "bounded:" + bt.Label, Kind: "bounded", Label: bt.Label, Result: "fail", Output: trunc(text, 6000), Src: bt.Desc}
+			violations++
+			rp := filepath.Join(outDir, "replay-"+sanitizeFile(o.Name)+".json")
+			rec := map[string]any{"property": id, "obligation": o.Name, "kind": "bounded", "clause": bt.Desc, "result": "fail",
+				"reason": "bounded exhaustive run of the real code failed (the failing cases are in the output)", "solver_output": o.Output,
+				"failing_input": map[string]any{"test_output": o.Output}}
+			data, _ := json.MarshalIndent(rec, "", " ")
+			os.WriteFile(rp, data, 0o644)
+			vioLines = append(vioLines, fmt.Sprintf("VIOLATION property=%s replay=%s obligation=%s result=fail bounded-run-failed-on-real-code", id, rp, o.Name))
+			exit = 1
+		}
+	}
 	for _, o := range callerObls {
 		total++
 		evObls = append(evObls, evidenceObl{Name: o.Name, Result: o.Result, Solver: o.Solver, Clause: o.Src})
@@ -586,7 +660,7 @@ func mainCheck(args []string) int {
 		"covers":                   covers,
 		"min_obligations":          suite.MinObls,
 		"unverified_surroundings":  suite.Unverified,
-		"bounded":                  suite.Bounded,
+		"bounded":                  append(boundedEv, toAny(suite.Bounded)...),
 		"pure_externals_havoced":   sortedKeys(pureExt),
 		"contract_files":           C.Files,
 		"tier_timeout_s":           opts.timeoutS,
@@ -730,4 +804,12 @@ func mainVC(args []string) int {
 		}
 	}
 	return 0
+}
+
+func toAny(ss []string) []any {
+	var out []any
+	for _, s := range ss {
+		out = append(out, s)
+	}
+	return out
 }
